@@ -1,10 +1,11 @@
 """Contracts on the instancer's tuple-variation limiting (C08), modular over rebaseTent's
 contract (contracts/instancer_solver.py): what one TupleVariation contributed at a location
 of the new range is what the returned variations contribute there."""
+from fractions import Fraction
 from types import SimpleNamespace
 
 from pyvc.core import Contract, contract, prop, internal
-from pyvc.spec import And, Or, Not, Implies, Ite, eq
+from pyvc.spec import And, Or, Not, Implies, Ite, eq, floor
 from pyvc import sym as _sym
 from contracts.varlib_models import spec_region_axis_scalar
 from contracts.instancer_solver import _mk_limit, limit_ok, tent_value
@@ -161,3 +162,135 @@ class LimitRangeAndPopulateDefaults(Contract):
         True if a.self.minimum is not None else eq(r.minimum, a.fvarTriple[0]),
         True if a.self.maximum is not None else eq(r.maximum, a.fvarTriple[2]),
         True if a.self.default is not None else Implies(And(r.minimum <= a.fvarTriple[1], a.fvarTriple[1] <= r.maximum), eq(r.default, a.fvarTriple[1]))))]
+
+
+# -- instantiateTupleVariationStore: merging, rounding, default deltas ---------------------------------
+
+_TENTS = {
+    "w": {"wght": (0, 1.0, 1.0)},
+    "w2": {"wght": (0, 0.5, 1.0)},
+    "d": {"wdth": (0, 1.0, 1.0)},
+    "wd": {"wght": (0, 1.0, 1.0), "wdth": (0, 1.0, 1.0)},
+    "pinned": {},
+}
+# what changeTupleVariationsAxisLimits hands over (its own contract: ChangeTupleVariationAxisLimit):
+# lists of tuples named by their remaining tents; equal names must be merged
+MERGE_CASES = {
+    "distinct": ["w", "d", "wd"],
+    "two-equal": ["w", "d", "w"],
+    "three-equal": ["w2", "w2", "w2"],
+    "with-default": ["pinned", "w", "pinned"],
+    "only-default": ["pinned", "pinned"],
+    "interleaved": ["w", "pinned", "d", "w", "d"],
+    "empty": [],
+}
+
+
+@contract
+class InstantiateTupleVariationStoreMerge(Contract):
+    """instantiateTupleVariationStore after the axis limits were applied (callee stubbed by its
+    result): tuples with identical remaining tents are merged by adding their deltas point by
+    point, kept in first-occurrence order; tuples with no axes left are removed and their summed
+    deltas returned unrounded; every kept delta is rounded once, after summing (so the stored
+    value is within 1/2 of the exact sum); the list is updated in place.  cvar-style scalar
+    deltas (None = no adjustment) and gvar-style (x, y) deltas."""
+    module = "fontTools.varLib.instancer"
+    qualname = "instantiateTupleVariationStore"
+    props = ("C08",)
+    shadow_mode = "function"
+    variants = tuple((k, w) for k in MERGE_CASES for w in (1, 2))
+    level = "PF"
+    assumptions = ("A-REAL", "changeTupleVariationsAxisLimits is used through its result (contract ChangeTupleVariationAxisLimit)")
+
+    def rebind(self):
+        outer = self
+        return {"changeTupleVariationsAxisLimits": lambda variations, axisLimits: list(outer._after)}
+
+    # TupleVariation.roundDeltas lives in another module: its otRound is pointed at the rounding
+    # model (identical on concrete numbers) for the duration of the run
+    def setup(self):
+        import fontTools.ttLib.tables.TupleVariation as tv
+        from pyvc.models import round_tools
+        self._saved = tv.otRound
+        tv.otRound = round_tools().otRound
+
+    def teardown(self):
+        import fontTools.ttLib.tables.TupleVariation as tv
+        tv.otRound = self._saved
+
+    def args(self, S, variant):
+        from fontTools.ttLib.tables.TupleVariation import TupleVariation
+        case, width = variant
+        names = MERGE_CASES[case]
+        npts = 3 if width == 1 else 2
+        vs, raw = [], []
+        for i, nm in enumerate(names):
+            if width == 1:
+                # the first delta is a concrete float: TupleVariation.getCoordWidth() decides the
+                # flavour by type(firstDelta) in (int, float), which a proxy cannot satisfy
+                coords = [i + 0.25] + [S.real("v%d_%d" % (i, j)) for j in range(1, npts)]
+                if i == 1:
+                    coords[-1] = None          # cvar: None means "no adjustment"
+            else:
+                coords = [(S.real("x%d_%d" % (i, j)), S.real("y%d_%d" % (i, j))) for j in range(npts)]
+            raw.append(list(coords))
+            vs.append(TupleVariation(dict(_TENTS[nm]), list(coords)))
+        self._after = vs
+        original = [TupleVariation({"wght": (0, 1.0, 1.0)}, [0] * npts if width == 1 else [(0, 0)] * npts)]
+        return dict(variations=original, axisLimits={}, _names=names, _raw=raw, _width=width, _npts=npts)
+
+    @staticmethod
+    def _sum(a, group, j, k=None):
+        vals = []
+        for i in group:
+            d = a._raw[i][j]
+            if d is None:
+                continue
+            vals.append(d if k is None else d[k])
+        if not vals:
+            return None
+        t = 0
+        for v in vals:
+            t = t + v
+        return t
+
+    @staticmethod
+    def _post(a, r):
+        groups = {}
+        for i, nm in enumerate(a._names):
+            groups.setdefault(nm, []).append(i)
+        kept = [nm for nm in groups if nm != "pinned"]
+        out = a.variations
+        if [dict(v.axes) for v in out] != [_TENTS[nm] for nm in kept]:
+            return False
+        cs = []
+        half = Fraction(1, 2)
+        for v, nm in zip(out, kept):
+            for j in range(a._npts):
+                if a._width == 1:
+                    want = InstantiateTupleVariationStoreMerge._sum(a, groups[nm], j)
+                    got = v.coordinates[j]
+                    if want is None:
+                        if got is not None:
+                            return False
+                        continue
+                    cs.append(And(got - want <= half, want - got < half + Fraction(1, 10 ** 9), eq(got, floor(got))))
+                else:
+                    for k in (0, 1):
+                        want = InstantiateTupleVariationStoreMerge._sum(a, groups[nm], j, k)
+                        got = v.coordinates[j][k]
+                        cs.append(And(got - want <= half, want - got <= half, eq(got, floor(got))))
+        if "pinned" in groups:
+            if len(r) != a._npts:
+                return False
+            for j in range(a._npts):
+                if a._width == 1:
+                    want = InstantiateTupleVariationStoreMerge._sum(a, groups["pinned"], j)
+                    cs.append(r[j] is None if want is None else eq(r[j], want))
+                else:
+                    cs += [eq(r[j][k], InstantiateTupleVariationStoreMerge._sum(a, groups["pinned"], j, k)) for k in (0, 1)]
+        else:
+            cs.append(len(r) == 0)
+        return And(*cs)
+
+    ensures = [prop("merged-by-tents-rounded-once-default-returned", lambda a, old, r: InstantiateTupleVariationStoreMerge._post(a, r))]
